@@ -285,6 +285,34 @@ func runC02(c *Ctx) {
 			}
 		}
 	}
+	// three and more confirmations whose expiries differ and come in every order: the one at the boundary is
+	// judged on its own wherever it stands and whatever its neighbours' values are
+	{
+		cfg := defaultCfg()
+		N := now0 / ms * ms
+		far := int64(10 * time.Hour)
+		perms := [][]int{{0, 1, 2}, {0, 2, 1}, {1, 0, 2}, {1, 2, 0}, {2, 0, 1}, {2, 1, 0}, {0, 2, 1, 3}, {3, 1, 0, 2}, {1, 3, 2, 0}, {2, 3, 1, 0, 4}}
+		for pi, perm := range perms {
+			for _, k := range []int{0, 1} {
+				n++
+				rs, as := validSpecs(cfg, now0, fmt.Sprintf("ord%d", n))
+				as.Confs = nil
+				for _, slot := range perm {
+					noa := N + int64(slot)*int64(time.Hour) // slot 0 is the boundary one, the others expire 1 h, 2 h ... later
+					if slot == 0 {
+						noa = lat(N-cfg.MaxClockSkew, true, k, far)
+					}
+					as.Confs = append(as.Confs, ConfSpec{IRT: sp("req-1"), Recipient: sp(cfg.AcsURL), NOA: sp(fmtMS(noa))})
+				}
+				a := buildAssertion(as)
+				r := buildResponse(rs, a)
+				SignInto(r, 0)
+				c.Count("class/confirmation-order")
+				addRun(c, g, &Run{Cfg: cfg, IDs: []string{"req-1"}, Now: now0, Cur: cfg.AcsURL, Doc: r},
+					map[string]string{"class": "confirmation-order", "order": fmt.Sprint(perm), "k": fmt.Sprint(k), "perm": fmt.Sprint(pi)}, false)
+			}
+		}
+	}
 	c02Lexical(c, g)
 	spHistories(c, g)
 	randomCombinations(c, g, 400, false)
